@@ -208,6 +208,18 @@ class C08(core.PropBase):
         else:
             for _ in range(quota):
                 yield {"s": rng.choice(els) + "," + rng.choice(els)}
+        # 2b. call SEQUENCES in one process: a valid expression followed by look-alikes that differ only in blanks
+        #     (between tokens: same meaning; inside a number: ungrammatical).  Each case is judged on its own, but a
+        #     cache or other state kept between calls shows up on the second and third.
+        for _ in range(6000 if thorough else 600):
+            s0 = cap_digits(rand_list(rng))
+            yield {"s": s0}
+            yield {"s": with_blanks(rng, s0)}
+            digits = [i for i in range(1, len(s0)) if s0[i].isdigit() and s0[i - 1].isdigit()]
+            if digits:
+                i = rng.choice(digits)
+                yield {"s": s0[:i] + rng.choice(BLANKS) + s0[i:]}
+            yield {"s": s0}
         # 3. random structured lists
         n = 60000 if thorough else 4000
         for _ in range(n):
